@@ -5,7 +5,9 @@ import MM.Model.C10
   Line-protocol oracle for C10: all four tables plus the CIDR part of `routing.Manager`.
 
     reset <self>
-    c<op …>      an op of MM/Engine/C08.lean on the CIDR table (cadd, crm, cdisc, cage, cclean, clook, cget)
+    c<op …>      an op of MM/Engine/C08.lean on the CIDR table (cadd, crm, cdisc, cage, cclean, clook, cget,
+                 crace <n> | add … | rm … with unprefixed inner ops)
+    race <n> | dadv … | drm …     concurrent ops on the domain / forward / agent table (C09 engine)
     d… f… a…     the ops of MM/Engine/C09.lean
     mlocal <ip> <ones> <bits> <metric>                                   Manager.AddLocalRoute
     mrmlocal <ip> <ones> <bits>                                          Manager.RemoveLocalRoute
@@ -94,40 +96,20 @@ def step (st : St) (line : String) : St × String :=
     ({ st with o := o' }, out)
   | op :: _ =>
     if op.startsWith "c" then
-      let (c', out) := C08.step st.c (stripOp line)
+      let (c', out) := C08.stepR st.c (stripOp line)
       ({ st with c := c' }, out)
     else
-      let (o', out) := C09.step st.o line
+      let (o', out) := C09.stepR st.o line
       ({ st with o := o' }, out)
   | [] => (st, "bad-op")
 
 /-! ### spec -/
-
-/-- rebuild a table from the tokens of a dump: `G…` opens a slice, `E…` adds an entry to it;
-    ages are turned back into `born` relative to `now` -/
-def rebuild {K P : Type} (keyOf : P → K) (parseE : String → Option (Entry P)) (now : Nat)
-    (toks : List String) : KTable K P :=
-  let groups : List (List (Entry P)) := toks.foldl (fun acc tok =>
-    if tok.startsWith "G" then acc ++ [[]]
-    else match parseE tok, acc.reverse with
-      | some e, last :: before => before.reverse ++ [last ++ [{ e with born := now - e.born }]]
-      | _, _ => acc) []
-  groups.filterMap fun g => match g with
-    | [] => none
-    | e :: _ => some (keyOf e.pay, g)
-
-def dumpToks (out : String) : List String :=
-  match out.splitOn " ; " with
-  | [_, d] => tokens d
-  | _ => []
 
 /-- result token + sorted entry tokens (contents, not order) -/
 def canonOut (out : String) : String × List String :=
   match out.splitOn " ; " with
   | [r, d] => (r.trimAscii.toString, ((tokens d).filter (·.startsWith "E")).toArray.qsort (· < ·) |>.toList)
   | _ => (out, [])
-
-def baseNow : Nat := 100000
 
 structure SpecSt where
   self : Nat := 0
@@ -158,9 +140,13 @@ def ruleOf (self : Nat) (op : String) (toks : List String) : String :=
     implementation printed -/
 def verdict (self : Nat) (op : String) (toks : List String) (expected impl : String)
     (prev : List String) : String :=
-  let e := canonOut expected
   let i := canonOut impl
-  if e == i then "ok"
+  if (op.drop 1).toString = "race" || op = "race" then
+    match wfTag (toks.any (fun t => t.startsWith "aadd" || t = "arm")) (dumpToks impl) with
+    | some tag => "fail " ++ tag
+    | none => if (alternatives expected).any (fun e => canonOut e == i) then "ok"
+              else "fail race-not-serializable"
+  else if canonOut expected == i then "ok"
   else
     let rule := ruleOf self op toks
     if rule = "cleanup-inexact" then
@@ -191,10 +177,11 @@ def specStep (st : SpecSt) (l : String) : SpecSt × String :=
           ({ st with m := dumpToks out, mseq := ms'.m.seq, mlocals := ms'.m.locals }, v)
         else if op.startsWith "c" then
           let tab : CTable := rebuild eff C08.parseEntry baseNow st.c
-          let (_, expected) := C08.step ⟨st.self, ⟨baseNow, tab⟩⟩ (stripOp opline)
+          let (_, expected) := C08.stepR ⟨st.self, ⟨baseNow, tab⟩⟩ (stripOp opline)
           ({ st with c := dumpToks out }, verdict st.self op rest expected out st.c)
         else
-          let tbl := if op.startsWith "m" then (op.drop 1).toString else op
+          let tbl := if op.startsWith "m" then (op.drop 1).toString
+                     else if op = "race" then C09.raceTable opline else op
           let ms : St := { self := st.self }
           if tbl.startsWith "d" then
             let tab : DTable := rebuild domKey (parseCommon parseDomPay) baseNow st.d
